@@ -65,7 +65,13 @@ def d_tref(t):
     if t is None:
         return None
     if isinstance(t, Q.Table):
-        return {"name": _optstr(t._table_name), "schema": schema_chain(t._schema), "alias": _optstr(t.alias)}
+        d = {"name": _optstr(t._table_name), "schema": schema_chain(t._schema), "alias": _optstr(t.alias)}
+        # a temporal version of the table is another row source (Table.__eq__ compares the text of the criteria)
+        if getattr(t, "_for", None):
+            d["ver"] = "F:" + str(t._for)
+        elif getattr(t, "_for_portion", None):
+            d["ver"] = "P:" + str(t._for_portion)
+        return d
     if isinstance(t, (Q.QueryBuilder, Q._SetOperation, Q.AliasedQuery)):
         return {"name": None, "schema": [], "alias": _optstr(t.alias)}
     raise Unsupported("field table %r" % type(t))
